@@ -116,6 +116,17 @@ func minkInput(id run.CaseID) minkCase {
 		mc.Pattern = gen.RandPaths(r, 1, 7, max(R/4, 4))[0]
 		mc.Path = gen.RandPaths(r, 1, 7, R)[0]
 	}
+	switch id.Family { // fresh families only: in 15 % of the cases a vertex of the swept outline falls exactly on the origin
+	case "mink-convex", "mink-degenerate", "mink-big":
+		if r.Chance(0.15) && len(mc.Path) > 0 && len(mc.Pattern) > 0 {
+			q, b := mc.Path[r.Intn(len(mc.Path))], mc.Pattern[r.Intn(len(mc.Pattern))]
+			dx, dy := -(q.X + b.X), -(q.Y + b.Y)
+			if r.Bool() { // ... of the difference instead of the sum
+				dx, dy = -(q.X - b.X), -(q.Y - b.Y)
+			}
+			mc.Path = gen.Translate(Paths{mc.Path}, dx, dy)[0]
+		}
+	}
 	return mc
 }
 
